@@ -462,6 +462,20 @@ pub fn main_repro() {
     let o = run_model(g.to_model(), vec![("X", byte_value("u8", &[2, 2, 2, 2], &[1; 16]))], &["Y"], &[0]);
     println!("(4) ConvInteger x=ones[2,2,2,2] u8, w=ones[1,2,2,2] i8: {} {:?} (want [8, 8])",
              o.outcome, o.outs.first().map(|x| x.1.clone()));
+    // (7) ConvInteger with K = C*kh*kw = 3 (not a multiple of 4) and top + left padding:
+    // x = ones [1,3,1,1] i8, w = ones [1,3,1,1] i8, pads [1,1,0,0] -> [[0,0],[0,3]].
+    let mut g = Graph::default();
+    g.inputs.push(ValueInfo::fixed("X", onnx::INT8, &[1, 3, 1, 1]));
+    g.initializers.push(byte_tensor("W", "i8", &[1, 3, 1, 1], &[1, 1, 1]));
+    g.nodes.push(
+        Node::new("ConvInteger", &["X", "W"], &["Y"])
+            .attr("kernel_shape", Attr::Ints(vec![1, 1]))
+            .attr("pads", Attr::Ints(vec![1, 1, 0, 0])),
+    );
+    g.outputs.push(ValueInfo::new("Y", onnx::INT32, None));
+    let o = run_model(g.to_model(), vec![("X", byte_value("i8", &[1, 3, 1, 1], &[1, 1, 1]))], &["Y"], &[0]);
+    println!("(7) ConvInteger x=ones[1,3,1,1] i8, w=ones[1,3,1,1] i8, pads=[1,1,0,0]: {} {:?} (want [0, 0, 0, 3])",
+             o.outcome, o.outs.first().map(|x| x.1.clone()));
     // (5) MatMulInteger with constant i8 B, b_zero_point 3, weights prepacked at load:
     // A = [[1],[1]], B = [[5]] -> [[2],[2]]
     for prepack in [false, true] {
